@@ -595,7 +595,10 @@ def job(jc, spec):
             obs['block boundaries are instruction offsets'] = z3.BoolVal(bounds)
             terms = [bv(c[1]) for b in blocks for c in b['childs']] + [bv(f[0]) for b in blocks for f in b['fathers']] + \
                     [bv(h[1]) for b in blocks if b['exc'] for h in b['exc'][2]]
-            obs['edge / handler offsets are instruction offsets'] = z3.And([any_eq(x, starts) for x in terms] + [z3.BoolVal(True)])
+            if not any(x.startswith('r') for x in t.sym):
+                # (with a symbolic payload reference a switch may read another switch's payload, whose targets are
+                # relative to the other instruction: such code is not well formed and its edges are not constrained)
+                obs['edge / handler offsets are instruction offsets'] = z3.And([any_eq(x, starts) for x in terms] + [z3.BoolVal(True)])
             for b in blocks:
                 for o2, (spoff, sptype) in b['special'].items():
                     i = B.uoff.index(o2 // 2)
